@@ -55,6 +55,10 @@ namespace GeographicLib {
       R = hypot(X, Y),
       slam = R != 0 ? Y / R : 0,
       clam = R != 0 ? X / R : 1;
+    if (R != 0 &&
+        R < numeric_limits<real>::min() / numeric_limits<real>::epsilon())
+      // A subnormal R is inaccurate, so slam^2 + clam^2 != 1
+      Math::norm(slam, clam);
     h = hypot(R, Z);      // Distance to center of earth
     real sphi, cphi;
     if (h > _maxrad) {
